@@ -146,3 +146,93 @@ def cmd_sf(prop, op, ty, a, s, kind, cell=None):
         return out
 
     return Cmd(line, check, cell=cell, prop=prop)
+
+
+# ---------------------------------------------------------------- division conventions
+
+def model_divall(a, b, kind):
+    """expected result per API name; values are ints, tuples of ints, None, or PANIC"""
+    names = ['div', 'rem', 'div_rem', 'div_floor', 'mod_floor', 'div_mod_floor', 'div_ceil', 'div_euclid',
+             'rem_euclid', 'div_rem_euclid', 'checked_div', 'checked_div_euclid', 'checked_rem_euclid',
+             'checked_div_rem_euclid']
+    if kind == 'I':
+        names.append('checked_div_inh')
+    if b == 0:
+        return {n: (None if n.startswith('checked') else PANIC) for n in names}
+    tq, tr = tdivmod(a, b)
+    fq, fr = divmod(a, b)
+    er = a % abs(b)
+    eq = (a - er) // b
+    cq = -((-a) // b)
+    m = {'div': tq, 'rem': tr, 'div_rem': (tq, tr), 'div_floor': fq, 'mod_floor': fr, 'div_mod_floor': (fq, fr),
+         'div_ceil': cq, 'div_euclid': eq, 'rem_euclid': er, 'div_rem_euclid': (eq, er), 'checked_div': tq,
+         'checked_div_euclid': eq, 'checked_rem_euclid': er, 'checked_div_rem_euclid': (eq, er)}
+    if kind == 'I':
+        m['checked_div_inh'] = tq
+    return m
+
+
+def uniqueness_problems(prop, name, a, b, q, r):
+    """the defining conditions themselves, asserted on the reported pair (independent of model lines)"""
+    out = []
+    if a != q * b + r:
+        out.append(Problem(prop, '%s: a != q*b + r' % name, 'q=%x r=%x' % (q, r)))
+    if name in ('div_rem',):
+        if not (abs(r) < abs(b) and (r == 0 or (r < 0) == (a < 0))):
+            out.append(Problem(prop, '%s: remainder violates truncation convention' % name, 'r=%x' % r))
+    elif name in ('div_mod_floor',):
+        if not (abs(r) < abs(b) and (r == 0 or (r < 0) == (b < 0))):
+            out.append(Problem(prop, '%s: remainder violates flooring convention' % name, 'r=%x' % r))
+    elif name in ('div_rem_euclid', 'checked_div_rem_euclid'):
+        if not (0 <= r < abs(b)):
+            out.append(Problem(prop, '%s: remainder outside [0,|b|)' % name, 'r=%x' % r))
+    return out
+
+
+def cmd_divall(prop, a, b, kind, cell=None, nontrivial=True):
+    line = 'divall %s %s' % (tok(a, kind), tok(b, kind))
+    want = model_divall(a, b, kind)
+
+    def check(res):
+        out = []
+        for name, w in want.items():
+            got = res.get(name)
+            label = 'divall %s' % name
+            if isinstance(w, tuple):
+                if got is PANIC:
+                    out.append(Problem({prop, 'C14'}, label + ': panicked on a valid input', ''))
+                    continue
+                if not (isinstance(got, list) and len(got) == 2):
+                    out.append(Problem(prop, label + ': expected a pair', 'got=%r' % (got,)))
+                    continue
+                out += chk_big(prop, got[0], w[0], label + ' quotient', kind)
+                out += chk_big(prop, got[1], w[1], label + ' remainder', kind)
+                if all(isinstance(g, BV) for g in got):
+                    out += uniqueness_problems(prop, name, a, b, got[0].v, got[1].v)
+            elif w is None and name.startswith('checked'):
+                if got is PANIC:
+                    out.append(Problem({prop, 'C14'}, label + ': panicked instead of returning None for a zero divisor', ''))
+                elif got is not None:
+                    out.append(Problem({prop, 'C14'}, label + ': returned Some for a zero divisor', 'got=%r' % (got,)))
+            else:
+                out += chk_big(prop, got, w, label, kind)
+        return out
+
+    return Cmd(line, check, cell=cell, nontrivial=nontrivial, prop=prop)
+
+
+def cmd_srem(prop, ty, s, b, cell=None):
+    """scalar %= BigUint (by reference and by value); canonical: truncated remainder of the
+    losslessly converted operands"""
+    line = 'srem %s %d %s' % (ty, s, U(b))
+    want = PANIC if b == 0 else tdivmod(s, b)[1]
+
+    def check(res):
+        out = []
+        for k, nm in ((0, 'scalar %= &BigUint'), (1, 'scalar %= BigUint')):
+            for pr in chk_eq(prop, res.val(k), want, 'srem %s %s' % (ty, nm)):
+                pr.props = pr.props | {'C10'}
+                out.append(pr)
+        return out
+
+    return Cmd(line, check, cell=cell, prop=prop)
